@@ -839,6 +839,7 @@ pub fn vx_clone_lc(lc: &Lifecycle) -> (r: Lifecycle)
 //@|    proof { g_prev = *prev_lc; g_lc2 = *lc2; arm = 2; }
 //@   hint before `let is_buffered = buffered_lcs.contains(&prev_lc.id)`
 //@|    proof {
+//@|        assert(lc2.start_time <= spec_end(prev_lc) && !spec_slightly(prev_lc, lc2.start_time as int)); // O:clean.merge_only_inside (a lifecycle is merged into its predecessor only when its start falls into the predecessor - not after its end, not into the slightly-overlapping window)
 //@|        assert(rest0.len() > 0);
 //@|        lemma_list_ok_drop(m_in.ecu, rest0);
 //@|        assert(rest0 =~= rest0.drop_last().push(rest0.last()));
